@@ -6,8 +6,11 @@
   transaction runs at height h = previous+1, then the timers of h fire).
 
   Parameters (not computed by the model): unstake lock period, unbonding
-  period, slot maximum, the set of active P-Reps (`nPreps`: targets below it
-  are active P-Reps), who may bond to whom (`mayBond`), claimed reward amounts.
+  period, slot maximum, who may bond to whom (`allowed`), claimed and issued
+  amounts.  The set of registered / active P-Reps is state: `register` and
+  `unregister` transactions change it the way `State.RegisterPRep` /
+  `State.DisablePRep(Unregistered)` do (total delegation follows the cached
+  per-P-Rep `delegated`; an unregistering P-Rep must have no bond).
   `rest` is all ICX held outside the modelled accounts (treasury, others).
 -/
 namespace Goloop.C34
@@ -21,6 +24,7 @@ structure Account where
   delegs : Votes := []
   bonds : Votes := []
   unbonds : List (Nat × Int × Int) := []   -- (to, value, expireHeight)
+  utimers : List Int := []                 -- heights whose unstaking timer (a set of addresses) contains this account
   deriving Repr, Inhabited
 
 def sumInt (l : List Int) : Int := l.foldr (· + ·) 0
@@ -46,8 +50,11 @@ structure World where
   slotMax : Nat := 1
   unbondPeriod : Int := 0
   unbondMax : Nat := 100
-  nPreps : Nat := 0
-  deriving Repr, Inhabited
+  registered : Nat → Bool := fun _ => false   -- has a PRepBase
+  active : Nat → Bool := fun _ => false       -- PRepStatus.IsActive
+  pDelegated : Nat → Int := fun _ => 0        -- PRepStatus.delegated (kept for every target, P-Rep or not)
+  pBonded : Nat → Int := fun _ => 0           -- PRepStatus.bonded
+  deriving Inhabited
 
 /-- Unstakes.decreaseUnstake at revision ≥ MultipleUnstakes, on the reversed list (last slot first) -/
 def decreaseRev : List (Int × Int) → Int → List (Int × Int)
@@ -78,6 +85,8 @@ def increaseUnstake (us : List (Int × Int)) (v eh : Int) (slotMax : Nat) : List
 
 inductive Tx where
   | none
+  | register (k : Nat)
+  | unregister (k : Nat)
   | stake (i : Nat) (v : Int)
   | deleg (i : Nat) (ds : Votes)
   | bond (i : Nat) (bs : Votes) (allowed : Bool)   -- allowed: every target is a P-Rep listing `i` as bonder
@@ -88,8 +97,43 @@ inductive Tx where
 def getAcct (w : World) (i : Nat) : Account := w.accts.getD i {}
 def setAcct (w : World) (i : Nat) (a : Account) : World := { w with accts := w.accts.set i a }
 
-def activeSum (w : World) (vs : Votes) : Int :=
-  sumInt ((vs.filter (fun v => decide (v.1 < w.nPreps))).map (·.2))
+def activeSum (act : Nat → Bool) (vs : Votes) : Int :=
+  sumInt ((vs.filter (fun v => act v.1)).map (·.2))
+
+/-- sum of the entries of a vote list for target `k` -/
+def votesTo (k : Nat) (vs : Votes) : Int := sumInt ((vs.filter (fun v => v.1 == k)).map (·.2))
+
+/-- the entry a Go map built from the list holds for `k` (the last one wins), 0 if absent -/
+def lookupLast (vs : Votes) (k : Nat) : Int :=
+  match vs.reverse.find? (fun v => v.1 == k) with
+  | some v => v.2
+  | none => 0
+
+/-- Delegations.Delta / Bonds.Delta for key `k`: old entries are overwritten (negated), new ones added up -/
+def deltaVote (old new : Votes) (k : Nat) : Int := votesTo k new - lookupLast old k
+
+/-- timer jobs of decreaseUnstake (last slot first): one `Remove` per removed slot -/
+def decreaseJobsRev : List (Int × Int) → Int → List (Bool × Int)
+  | [], _ => []
+  | u :: rest, remain =>
+    if remain ≥ u.1 then
+      (false, u.2) :: (if remain = u.1 then [] else decreaseJobsRev rest (remain - u.1))
+    else []
+
+/-- timer jobs `(isAdd, height)` returned by decreaseUnstake / increaseUnstake -/
+def stakeJobs (us : List (Int × Int)) (stakeInc expire : Int) (slotMax : Nat) : List (Bool × Int) :=
+  if stakeInc ≥ 0 then decreaseJobsRev us.reverse stakeInc
+  else if us.length ≥ slotMax then
+    match us.reverse with
+    | [] => []
+    | last :: _ => if expire > last.2 then [(false, last.2), (true, expire)] else []
+  else [(true, expire)]
+
+/-- ScheduleTimerJob on the timers of the account's address: `TimerState.Add` is idempotent,
+    `TimerState.Delete` drops the address from the timer of that height — whether or not another
+    slot of the account still expires there -/
+def applyJobs (ts : List Int) (jobs : List (Bool × Int)) : List Int :=
+  jobs.foldl (fun ts j => if j.1 then (if ts.contains j.2 then ts else ts ++ [j.2]) else ts.filter (· != j.2)) ts
 
 /-- the `switch stakeInc.Sign()` of SetStake -/
 def newUnstakes (us : List (Int × Int)) (stakeInc expire : Int) (slotMax : Nat) : List (Int × Int) :=
@@ -106,7 +150,8 @@ def setStake (w : World) (i : Nat) (v : Int) : Option World :=
   let expire := w.height + w.lock
   let us := newUnstakes a.unstakes stakeInc expire w.slotMax
   if v < 0 then none else
-  let a1 := { a with unstakes := us, stake := v }
+  let a1 := { a with unstakes := us, stake := v,
+                     utimers := applyJobs a.utimers (stakeJobs a.unstakes stakeInc expire w.slotMax) }
   let diff := a1.totalStake - a.totalStake
   if diff < 0 then none    -- the Go code panics here
   else if a.balance < diff then none
@@ -118,7 +163,8 @@ def setDelegation (w : World) (i : Nat) (ds : Votes) : Option World :=
   let usingNew := sumInt (ds.map (·.2)) + a.unbonding + a.bonded
   if a.stake < usingNew then none else
   some { setAcct w i { a with delegs := ds } with
-         totalDeleg := w.totalDeleg + activeSum w ds - activeSum w a.delegs }
+         totalDeleg := w.totalDeleg + activeSum w.active ds - activeSum w.active a.delegs,
+         pDelegated := fun k => w.pDelegated k + deltaVote a.delegs ds k }
 
 def lookupVote (vs : Votes) (k : Nat) : Int :=
   match vs.find? (fun v => v.1 == k) with
@@ -142,6 +188,7 @@ def voteKeys (a b : Votes) : List Nat := ((a.map (·.1)) ++ (b.map (·.1))).eras
 def setBond (w : World) (i : Nat) (bs : Votes) (allowed : Bool) : Option World :=
   let a := getAcct w i
   if !allowed then none else
+  if !bs.all (fun b => w.registered b.1) then none else   -- GetPRepBaseByOwner(bond.To()) == nil
   if a.stake < sumInt (bs.map (·.2)) + a.delegating then none else
   let expire := w.unbondPeriod + w.height
   let ubs := (voteKeys a.bonds bs).foldl
@@ -149,7 +196,9 @@ def setBond (w : World) (i : Nat) (bs : Votes) (allowed : Bool) : Option World :
   let a1 := { a with bonds := bs, unbonds := ubs }
   if ubs.length > w.unbondMax then none
   else if a1.stake < a1.usingStake then none
-  else some { setAcct w i a1 with totalBond := w.totalBond + activeSum w bs - activeSum w a.bonds }
+  else some { setAcct w i a1 with
+              totalBond := w.totalBond + activeSum w.active bs - activeSum w.active a.bonds,
+              pBonded := fun k => w.pBonded k + deltaVote a.bonds bs k }
 
 /-- worldContext.Transfer -/
 def transfer (w : World) (i j : Nat) (v : Int) : Option World :=
@@ -168,9 +217,25 @@ def claim (w : World) (i : Nat) (icx : Int) (ok : Bool) : Option World :=
   let a := getAcct w i
   some { setAcct w i { a with balance := a.balance + icx } with rest := w.rest - icx }
 
+/-- State.RegisterPRep (accounting part): a never registered address becomes an active P-Rep -/
+def registerPRep (w : World) (k : Nat) : Option World :=
+  if w.registered k then none else
+  some { w with registered := fun x => if x = k then true else w.registered x,
+                active := fun x => if x = k then true else w.active x,
+                totalDeleg := if w.pDelegated k > 0 then w.totalDeleg + w.pDelegated k else w.totalDeleg }
+
+/-- State.DisablePRep(Unregistered) (accounting part) -/
+def unregisterPRep (w : World) (k : Nat) : Option World :=
+  if !w.active k then none else
+  if w.pBonded k > 0 then none else
+  some { w with active := fun x => if x = k then false else w.active x,
+                totalDeleg := w.totalDeleg - w.pDelegated k }
+
 /-- the acting accounts exist (the drivers reject other lines) -/
 def Tx.inRange (n : Nat) : Tx → Bool
   | .none => true
+  | .register _ => true
+  | .unregister _ => true
   | .stake i _ => decide (i < n)
   | .deleg i _ => decide (i < n)
   | .bond i _ _ => decide (i < n)
@@ -181,34 +246,48 @@ def applyTx (w : World) (tx : Tx) : Option World :=
   if !tx.inRange w.accts.length then none else
   match tx with
   | .none => some w
+  | .register k => registerPRep w k
+  | .unregister k => unregisterPRep w k
   | .stake i v => setStake w i v
   | .deleg i ds => setDelegation w i ds
   | .bond i bs al => setBond w i bs al
   | .xfer i j v => transfer w i j v
   | .claim i icx ok => claim w i icx ok
 
-/-- handleTimerJob for one account at height h -/
+/-- handleTimerJob for one account at height h: the unbonding timer (reference counted in
+    UpdateUnbonds, modelled as derived from the entries) and, only if the account is in the unstaking
+    timer of `h`, RemoveUnstake(h) + Deposit.  (RemoveUnstake returns an error when the timer
+    holds an account without a slot at `h`; that state is not reachable from the generated histories.) -/
 def fire (h : Int) (a : Account) : Account :=
-  { a with
-    unbonds := a.unbonds.filter (fun u => u.2.2 != h),
-    unstakes := a.unstakes.filter (fun u => u.2 != h),
-    balance := a.balance + sumInt ((a.unstakes.filter (fun u => u.2 == h)).map (·.1)) }
+  let a1 := { a with unbonds := a.unbonds.filter (fun u => u.2.2 != h) }
+  if a.utimers.contains h then
+    { a1 with
+      unstakes := a.unstakes.filter (fun u => u.2 != h),
+      balance := a.balance + sumInt ((a.unstakes.filter (fun u => u.2 == h)).map (·.1)),
+      utimers := a.utimers.filter (· != h) }
+  else a1
 
-/-- one block: height+1, the transaction (rolled back on failure), then the timers.
+/-- the transactions of a block in order; a failing one is rolled back, the others stay -/
+def applyTxs (w : World) : List Tx → World × List Bool
+  | [] => (w, [])
+  | tx :: rest =>
+    match applyTx w tx with
+    | some w' => let r := applyTxs w' rest; (r.1, true :: r.2)
+    | none => let r := applyTxs w rest; (r.1, false :: r.2)
+
+/-- one block: height+1, the transactions, then the timers of the new height.
     `issue` = ICX minted to the treasury by the base transaction (a parameter). -/
-def block (w : World) (tx : Tx) (issue : Int := 0) : World × Bool :=
+def block (w : World) (txs : List Tx) (issue : Int := 0) : World × List Bool :=
   let w0 := { w with height := w.height + 1, rest := w.rest + issue, totalSupply := w.totalSupply + issue }
-  let (w1, ok) := match applyTx w0 tx with
-    | some w' => (w', true)
-    | none => (w0, false)
-  ({ w1 with accts := w1.accts.map (fire w1.height) }, ok)
+  let r := applyTxs w0 txs
+  ({ r.1 with accts := r.1.accts.map (fire r.1.height) }, r.2)
 
-end Goloop.C34
+/-- the state of a block after its transactions, before the timers -/
+def preFire (w : World) (txs : List Tx) (issue : Int := 0) : World :=
+  (applyTxs { w with height := w.height + 1, rest := w.rest + issue, totalSupply := w.totalSupply + issue } txs).1
 
-namespace Goloop.C34
-
-/-- any history: a sequence of blocks, each with one (possibly failing) transaction and an issued amount -/
-def run (w : World) : List (Tx × Int) → World
+/-- any history: a sequence of blocks, each with any transactions and an issued amount -/
+def run (w : World) : List (List Tx × Int) → World
   | [] => w
   | op :: rest => run (block w op.1 op.2).1 rest
 
